@@ -85,8 +85,14 @@ def check(rep, tier, seed):
     cases = [c for c in cases if not c["skN"] and not c["skT"]]
     total = len(cases)
     if quick:
-        random.Random(seed).shuffle(cases)
-        cases = cases[:450]
+        # stratified: every "long sequence" graph and every leaf kind, then a seeded sample
+        def prio(c):
+            j = json.dumps(c["o"])
+            return j.count('"k": "int"') >= 8 or len(j) < 420
+        must = [c for c in cases if prio(c)]
+        rest = [c for c in cases if not prio(c)]
+        random.Random(seed).shuffle(rest)
+        cases = must + rest[:max(0, 450 - len(must))]
     rep.note("exported_cases", {"total": total, "replayed": len(cases)})
     rep.sample({"abstract_case": cases[0]["o"], "expected": cases[0]["expect"]})
     rep.sample({"abstract_case": cases[len(cases) // 2]["o"]})
